@@ -111,3 +111,33 @@ cases(toInvAngstrom)(_cases_for(['wavenumber']))
 cases(toInvNanometer)(_cases_for(['wavenumber']))
 cases(toConcentration)(_cases_for(['density']))
 cases(toVolumeFraction)(_cases_for(['density', 'diameter']))
+
+
+# --------------------------------------------------------------------------- constructor (documented defaults included)
+
+import pint
+
+
+@contract('pyPRISM/util/UnitConverter.py::UnitConverter.__init__', props=['C17'])
+def UnitConverter_init(self, dc=1.0, dc_unit='nanometer', mc=14.02, mc_unit='gram/mole', ec=2.48, ec_unit='kilojoule/mole'):
+    # a private registry per converter, in which dc / mc / ec are the characteristic length, mass and energy as given
+    self.pint = pint.UnitRegistry()
+    self.pint.define('dchar = {} {} = dc'.format(dc, dc_unit))
+    self.pint.define('mchar = {} {} = mc'.format(mc, mc_unit))
+    self.pint.define('echar = {} {} = ec'.format(ec, ec_unit))
+    self.dc = make_qty(self.pint, 1, 'dc')
+    self.d = self.dc
+    self.mc = make_qty(self.pint, 1, 'mc')
+    self.m = self.mc
+    self.ec = make_qty(self.pint, 1, 'ec')
+    self.e = self.ec
+
+
+@cases(UnitConverter_init)
+def _uc_init_cases():
+    yield 'all defaults', (lambda f: dict(self=f.obj(UC)))
+    for lu, eu in (('nanometer', 'kilojoule/mole'), ('angstrom', 'joule'), ('micrometer', 'kcal/mol')):
+        def build(f, lu=lu, eu=eu):
+            return dict(self=f.obj(UC), dc=f.real('dc', pos=True), dc_unit=lu, mc=f.real('mc', pos=True), mc_unit='gram/mole',
+                        ec=f.real('ec', pos=True), ec_unit=eu)
+        yield 'dc in %s, ec in %s' % (lu, eu), build
